@@ -381,7 +381,29 @@ func kindOf(m proto.Message) string {
 	case *sbom.NodeList:
 		return "nodelist"
 	}
-	return "?"
+	// any other message type of the schema (only used when that type has a Copy method)
+	return "msg:" + string(m.ProtoReflect().Descriptor().FullName())
+}
+
+// otherCopyable lists message types of the schema, beyond the five the property names, that have a
+// Copy method returning their own type (none on the tree this was written for; discovered by reflection,
+// so copy helpers added later are held to the same independence).
+func otherCopyable() []proto.Message {
+	var out []proto.Message
+	for _, m := range []proto.Message{&sbom.Document{}, &sbom.Metadata{}, &sbom.Tool{}, &sbom.DocumentType{}} {
+		if copyMethod(m).IsValid() {
+			out = append(out, m)
+		}
+	}
+	return out
+}
+
+func copyMethod(m proto.Message) reflect.Value {
+	mv := reflect.ValueOf(m).MethodByName("Copy")
+	if !mv.IsValid() || mv.Type().NumIn() != 0 || mv.Type().NumOut() != 1 || mv.Type().Out(0) != reflect.TypeOf(m) {
+		return reflect.Value{}
+	}
+	return mv
 }
 
 func valFrom(v Val) proto.Message {
@@ -395,8 +417,17 @@ func valFrom(v Val) proto.Message {
 		m = &sbom.Person{}
 	case "extref":
 		m = &sbom.ExternalReference{}
-	default:
+	case "nodelist", "":
 		m = &sbom.NodeList{}
+	default:
+		for _, c := range []proto.Message{&sbom.Document{}, &sbom.Metadata{}, &sbom.Tool{}, &sbom.DocumentType{}} {
+			if kindOf(c) == v.Kind {
+				m = c
+			}
+		}
+		if m == nil {
+			panic("c12: unknown value kind in scenario: " + v.Kind)
+		}
 	}
 	if err := proto.Unmarshal(unb64(v.PB), m); err != nil {
 		panic("c12: bad value in scenario")
@@ -436,6 +467,10 @@ func genC12(verifSeed int64, tier string, idx int) *core.Scenario {
 	}
 	if len(nlA.Nodes) > 0 {
 		sp.Vals = append(sp.Vals, valTo(nlA.Nodes[len(nlA.Nodes)-1]))
+	}
+	for _, m := range otherCopyable() {
+		g.Fill(m.ProtoReflect(), 0)
+		sp.Vals = append(sp.Vals, valTo(m))
 	}
 	nslots := len(sp.Vals)
 	shape := "history"
@@ -631,8 +666,21 @@ func (env *c12env) step(op Op) string {
 		case *sbom.ExternalReference:
 			c := v.Copy()
 			cp, equal = c, gen.Dump(v) == gen.Dump(c)
+		default:
+			cm := copyMethod(s.v)
+			if !cm.IsValid() {
+				return "no-copy-method"
+			}
+			c, ok := cm.Call(nil)[0].Interface().(proto.Message)
+			if !ok || c == nil || reflect.ValueOf(c).IsNil() {
+				return "nil"
+			}
+			cp, equal = c, gen.DumpNorm(s.v) == gen.DumpNorm(c)
 		}
 		prod := map[string]string{"node": "Node.Copy", "edge": "Edge.Copy", "person": "Person.Copy", "extref": "ExternalReference.Copy", "nodelist": "NodeList.Copy"}[s.kind]
+		if prod == "" {
+			prod = string(s.v.ProtoReflect().Descriptor().Name()) + ".Copy"
+		}
 		if !equal {
 			what := ""
 			if d1, d2 := gen.Dump(s.v), gen.Dump(cp); d1 != d2 {
